@@ -263,7 +263,7 @@ def resubscription_mismatch(ast, trace, runs=2):
     tee_map is excluded: it is built on publish(), whose connectable cannot be subscribed again once completed
     (on the unchanged code a second subscription of any tee_map completes empty, plain or multiplexed)."""
     ast = strip_taps(ast)
-    if 'tee' in kinds(ast):
+    if 'tee' in kinds(ast) or 'dist_describe' in kinds(ast):     # describe() is a tee_map inside
         return None
     try:
         rs_ = muxlib.run_mux_twice(ast, trace, runs=runs)
@@ -306,6 +306,8 @@ def hostile_environment_failure(case, obs):
         if v:
             return {'sig': 'environment:output-protocol', 'what': 'stream delivered to the subscriber: ' + v}
     sel = zlib.crc32(json.dumps([ast, case['trace']], sort_keys=True, default=repr).encode()) % 4
+    if 'dist_describe' in ks:
+        ks = set(ks) | {'tee'}     # rs.math.dist.describe is a tee_map inside
     if sel == 1 or (sel == 2 and 'tee' in ks):
         # operator values stored and used in a second pipeline (tee_map included)
         m = reapplication_mismatch(ast, case['trace'])
